@@ -1203,6 +1203,88 @@ func ttlBoundaryProbe(m *meta, rng *rand.Rand, round int) {
 	m.count("ttl_boundary_probes")
 }
 
+// pairingRace (C11, C05): one writer alternates Set(k, even, 1 ns) and Set(k, odd, 1 h) while four readers call
+// GetWithTTL: every hit must pair a value with the deadline of the same write (odd: close to 1 h; even: at most 1 ns),
+// and no hit may report a negative remaining time.
+func pairingRace(m *meta, rng *rand.Rand, round int) {
+	pol := pick(rng, []kioshun.EvictionPolicy{kioshun.SieveTinyLFU, kioshun.SieveTinyLFU, kioshun.LRU, kioshun.FIFO, kioshun.LFU})
+	ctx := fmt.Sprintf("pairing race round %d policy %v", round, pol)
+	c, err := kioshun.New[int, int](kioshun.Config{MaxSize: 64, ShardCount: 1, EvictionPolicy: pol})
+	must(err)
+	defer c.Close()
+	watch(ctx)
+	defer unwatch()
+	var stop atomic.Bool
+	var bad atomic.Int64
+	var wg sync.WaitGroup
+	for g := 0; g < 4; g++ {
+		wg.Add(1)
+		go func() {
+			defer wg.Done()
+			for !stop.Load() {
+				v, rem, ok := c.GetWithTTL(1)
+				if !ok {
+					continue
+				}
+				if rem < 0 || (v%2 == 1 && (rem < 59*time.Minute || rem > time.Hour)) || (v%2 == 0 && rem > time.Second) {
+					if bad.Add(1) <= 2 {
+						for _, p := range []string{"C11", "C05"} {
+							m.violate(p, fmt.Sprintf("%s: writer alternates Set(1, even, 1ns) / Set(1, odd, 1h); a concurrent GetWithTTL(1) returned (v%d, %v): the value of one write with the deadline of another (or a negative remaining time)", ctx, v, rem), ctx)
+						}
+					}
+				}
+			}
+		}()
+	}
+	for i := 0; i < 30000 && bad.Load() == 0; i++ {
+		c.Set(1, 2*i, time.Nanosecond)
+		c.Set(1, 2*i+1, time.Hour)
+	}
+	stop.Store(true)
+	wg.Wait()
+	m.count("pairing_race_rounds")
+}
+
+// catchUpStats (C10): a Get that finds its key only by draining a queued SetAsync (the drain token was busy when the
+// write was issued, and is free again when the Get arrives) is ONE lookup: Hits + Misses must equal the number of
+// Get calls and Hits the number of calls that returned a value.
+func catchUpStats(m *meta, rng *rand.Rand, round int) {
+	pol := pick(rng, []kioshun.EvictionPolicy{kioshun.SieveTinyLFU, kioshun.SieveTinyLFU, kioshun.LRU, kioshun.LFU})
+	ctx := fmt.Sprintf("catch-up stats round %d policy %v", round, pol)
+	c, err := kioshun.New[int, int](kioshun.Config{MaxSize: 4096, ShardCount: 1, EvictionPolicy: pol, StatsEnabled: true})
+	must(err)
+	defer c.Close()
+	watch(ctx)
+	defer unwatch()
+	var gets, found int64
+	caughtUp := 0
+	for i := 0; i < 300; i++ {
+		c.VerifHoldDrain(0, true)
+		err := c.SetAsync(i, i, kioshun.NoExpiration) // cannot apply inline: queued
+		c.VerifHoldDrain(0, false)
+		if err != nil {
+			continue
+		}
+		h, tl, _, _ := c.VerifRingState(0)
+		if _, ok := c.Get(i); ok {
+			found++
+			if h != tl {
+				caughtUp++
+			}
+		}
+		gets++
+		if i%32 == 31 {
+			c.Sync() // the worker's wake-ups all arrived while the harness held the token: drain before the ring fills
+		}
+	}
+	c.Sync()
+	st := c.Stats()
+	if st.Hits+st.Misses != gets || st.Hits != found {
+		m.violate("C10", fmt.Sprintf("%s: 300 rounds of SetAsync(i) issued while the drain token was busy, then Get(i): %d Get calls returned, %d with a value (%d of them while the write was still queued), but Stats reports Hits=%d Misses=%d", ctx, gets, found, caughtUp, st.Hits, st.Misses), ctx)
+	}
+	m.countN("catch_up_gets", int64(caughtUp))
+}
+
 // deleteBehindQueue (C01, C04): a SetAsync(k,v2) that was accepted and is still queued (the drain token is busy), then
 // Delete(k): the Delete began after the SetAsync returned, so after Sync the key must be gone.
 func deleteBehindQueue(m *meta, rng *rand.Rand, round int) {
@@ -1376,6 +1458,7 @@ func expiryRace(m *meta, rng *rand.Rand, round int) {
 	must(err)
 	stop := make(chan struct{})
 	var wg sync.WaitGroup
+	var pairBad atomic.Int64
 	watch(ctx)
 	for g := 0; g < 6; g++ {
 		wg.Add(1)
@@ -1393,6 +1476,16 @@ func expiryRace(m *meta, rng *rand.Rand, round int) {
 				default:
 				}
 				c.Get(1)
+				// value / deadline pairing: an odd value was written with 1 h, an even one with 120 us
+				if v, rem, ok := c.GetWithTTL(1); ok {
+					if (v%2 == 1 && (rem <= time.Minute || rem > time.Hour)) || (v%2 == 0 && (rem < 0 || rem > 120*time.Microsecond)) {
+						if pairBad.Add(1) <= 2 {
+							for _, p := range []string{"C11", "C05"} {
+								m.violate(p, fmt.Sprintf("%s: a reader racing the rewrite got GetWithTTL(1) = (v%d, %v): the value of one write (odd: 1 h, even: 120 us) paired with the deadline of another", ctx, v, rem), ctx)
+							}
+						}
+					}
+				}
 				c.GetWithTTL(2)
 				c.Exists(1)
 				c.Exists(2)
@@ -1615,6 +1708,7 @@ func streamConc(o opts) {
 			closeNotify(m, rng, r)
 			backlogProbe(m, rng, r)
 			statsRace(m, rng, r)
+			catchUpStats(m, rng, r)
 			cleanupRace(m, rng, r)
 			queuedStampProbe(m, rng, r)
 			ttlBoundaryProbe(m, rng, r)
@@ -1624,6 +1718,7 @@ func streamConc(o opts) {
 		case 3:
 			tableRace(m, rng, r)
 			tornRace(m, rng, r)
+			pairingRace(m, rng, r)
 			m.nontrivial(fmt.Sprintf("table/%d", r%16))
 		}
 		if r < 3 {
